@@ -8,6 +8,9 @@ package main
 // fragmented frame, in several kinds.  For each run the harness writes the model labels it
 // forced and what it observed (case for coq/run/C11Run.v), and evaluates the property oracles
 // on the implementation's own behaviour.
+// Further families: c11kinds.go / c11real.go (the kind of the failure, through the real wrappers and
+// over the real transports), c11blocked.go (the loss seen first by a Write of the endpoint itself:
+// the "consumer blocked" reply of dispatch), c11many.go (endpoints with many live handlers).
 
 import (
 	"bytes"
